@@ -93,7 +93,7 @@ class C04(Prop):
         "CombinatorStep/GatherStep/LoopCombinatorStep/ExecuteStep are only assumed to honour it. FAILED is absorbing "
         "through _reduce_statuses/_get_status when no CANCELLED is present. The executor's closing logic is a 2-field "
         "state machine: after _cancel or close() no step is left unterminated and a FAILED/CANCELLED status makes run() "
-        "raise (this holds for the repaired _cancel; the pre-fix behaviour is kept as C04_prefix_cancel_leaves_steps). "
+        "raise (this holds for the repaired _cancel; the pre-fix behaviour is kept as C04_prefix_cancel_leaves_steps_refuted). "
         "asyncio itself, task cancellation and real jobs are not modelled: they are exercised by running the real "
         "StreamFlowExecutor under a seeded permuting event loop on generated DAGs and comparing every step's final "
         "status and every port's history with the model.")
@@ -104,7 +104,8 @@ class C04(Prop):
                  "against StreamFlowExecutor.run() under permuted asyncio schedules")
     RULE = ("net: random DAGs of 1..7 Transformer/ConditionalStep subclasses over 1..3 injected ports with 0..12 tags "
             "(incl. >=10, shuffled tag order, unequal port lengths, int values colliding with Status codes), optional "
-            "failing tag, optional held step (a long job in another branch), optional extra suspension points, each run "
+            "failing tag, optional held step (a long job in another branch), optional extra suspension points, 8% with one "
+            "sink port left out of the workflow outputs, each run "
             "under its own seeded permutation of the asyncio ready queue; plus scatter->transform->gather and "
             "scatter x scatter -> dot/cartesian -> transform graphs (oracle only); reduce/get_status: random status "
             "lists. Non-trivial = a net with >=2 steps or a failure; distinct = distinct canonical JSON (schedule seed "
@@ -120,11 +121,11 @@ class C04(Prop):
 
     # ------------------------------------------------------------------ generation
     def gen(self, rng, tier):
-        n_net, n_sg, n_red = {"quick": (160, 30, 100), "thorough": (2500, 400, 1500),
-                              "extended": (1500, 200, 300)}[tier]
+        n_net, n_sg, n_red = {"quick": (160, 30, 100), "thorough": (900, 150, 500),
+                              "extended": (600, 100, 100)}[tier]
         cases = []
         for _ in range(n_net):
-            cases.append(netlib.gen_tg_net(rng, big=(tier != "quick")))
+            cases.append(netlib.gen_tg_net(rng, big=(tier != "quick"), drop_sink_p=0.08))
         for _ in range(n_sg):
             cases.append(netlib.gen_sg_net(rng))
         for _ in range(n_red):
@@ -236,7 +237,7 @@ class C04(Prop):
                         f"{coq_bool(o['ret'].startswith('raise'))} {coq_nat(u0)} {coq_nat(u1)}")
             if not in_model(c, o):
                 return None
-            tolerant = bool(o["raised"]) or not c.get("regular", False)
+            tolerant = bool(o["raised"]) or not c.get("regular", False) or netlib.has_unobserved_sink(c)
             return coq_net_case(c, o, tolerant)
         return None
 
@@ -248,7 +249,8 @@ class C04(Prop):
             return f"{c['f']}/{clause}"
         path = "cancel" if any(e[0] == "cancel" for e in o.get("exec", [])) else "close"
         kinds = "tg" if netlib.tg_only(c) else "sg"
-        return f"net/{clause}/{path}/{kinds}"
+        sink = "/sink" if netlib.has_unobserved_sink(c) else ""
+        return f"net/{clause}/{path}/{kinds}{sink}"
 
     def shrink(self, c):
         if c["f"] != "net":
